@@ -59,6 +59,18 @@ def build(cont, items, k, prefix, dtype):
             dump_signatures(path, SignatureArray(arrs, ks, dtype=np.dtype(dtype)))
             _H5[key] = load_signatures(path)
         return _H5[key]
+    if cont == 'hdf5-group':
+        # several collections stored as groups of ONE open HDF5 file (the documented use of HDF5Signatures.create / HDF5Signatures(group))
+        import h5py
+        from gambit.sigs.hdf5 import HDF5Signatures
+        if 'shared' not in _H5:
+            _H5['shared'] = h5py.File(os.path.join(tmpdir(), f'shared_{os.getpid()}.h5'), 'w')
+        key = 'g:' + core.canon([items, k, prefix, dtype])
+        if key not in _H5:
+            grp = _H5['shared'].create_group(f'set{len(_H5)}')
+            HDF5Signatures.create(grp, SignatureArray(arrs, ks, dtype=np.dtype(dtype)))
+            _H5[key] = grp.name
+        return HDF5Signatures(_H5['shared'][_H5[key]])
     raise ValueError(cont)
 
 
@@ -441,7 +453,7 @@ class Equality(Fam):
     name = 'equality'
     exhaustive = True
     rule = ('all ordered pairs from a family of collections differing in k, prefix, one element of one signature, length, integer width '
-            'and container kind (array/list/hdf5/annotated), incl. collections holding the same k-mers end to end but split differently: == both ways and != ')
+            'and container kind (array/list/hdf5/annotated/window/groups of one open HDF5 file), incl. collections holding the same k-mers end to end but split differently: == both ways and != ')
 
     def inputs(self, ctx):
         base = make_items(3)
@@ -467,6 +479,12 @@ class Equality(Fam):
         fam.append(dict(cont='array', items=[[], flat, []], k=8, prefix='ATG', dtype='u2'))
         fam.append(dict(cont='hdf5', items=[flat, [], []], k=8, prefix='ATG', dtype='u2'))
         fam.append(dict(cont='array', items=[[], [], flat], k=8, prefix='ATG', dtype='u2'))
+        # collections kept as groups of one open file: equal ones, a changed one, another k, another split
+        fam.append(dict(cont='hdf5-group', items=base, k=8, prefix='ATG', dtype='u2'))
+        fam.append(dict(cont='hdf5-group', items=changed, k=8, prefix='ATG', dtype='u2'))
+        fam.append(dict(cont='hdf5-group', items=base, k=9, prefix='ATG', dtype='u4'))
+        fam.append(dict(cont='hdf5-group', items=[flat[:1], flat[1:-1], flat[-1:]], k=8, prefix='ATG', dtype='u2'))
+        fam.append(dict(cont='hdf5-group', items=[], k=8, prefix='ATG', dtype='u2'))
         for a, b in itertools.product(fam, repeat=2):
             yield dict(op='eq', a=a, b=b)
 
